@@ -624,6 +624,34 @@ static int wl_pbapp(struct rep *r, int n0, int n, long k1, long k2)
 	return 1;
 }
 
+/* sprintbuf appending n formatted bytes to a buffer holding n0: on failure the buffer is as before (old text, NUL in
+ * place, nothing of the new text), on success old text + new text + NUL */
+static int wl_pbspr(struct rep *r, int n0, int n, long k1, long k2)
+{
+	struct printbuf *p = printbuf_new();
+	char *d0 = fill(n0, 0), *d = fill(n, 3);
+	char *z = __real_malloc((size_t)n + 1);
+	for (int i = 0; i < n; i++)
+		z[i] = d[i] ? d[i] : 'z'; /* a C string for %s */
+	z[n] = 0;
+	printbuf_memappend(p, d0, n0);
+	win_open(k1, k2, 1);
+	int rc = sprintbuf(p, "%s", z);
+	r->err = errno;
+	r->calls = win_close();
+	r->traced = 0;
+	int good = p->bpos == (rc < 0 ? n0 : n0 + n) && memcmp(p->buf, d0, (size_t)n0) == 0 &&
+	           (rc < 0 || memcmp(p->buf + n0, z, (size_t)n) == 0) && p->buf[p->bpos] == 0 && (rc < 0 || rc == n);
+	snprintf(r->res, sizeof r->res, "ret=%s bpos=%d", rc < 0 ? "-1" : "n", p->bpos);
+	r->same = good;
+	r->failed = rc < 0;
+	printbuf_free(p);
+	__real_free(d0);
+	__real_free(d);
+	__real_free(z);
+	return 1;
+}
+
 static int wl_alnew(struct rep *r, int size, long k1, long k2)
 {
 	win_open(k1, k2, 1);
@@ -1116,6 +1144,7 @@ static int dispatch(struct rep *r, int nw, char **w)
 	const char *n = w[0];
 	if (!strcmp(n, "pbnew") && na == 0) return wl_pbnew(r, k1, k2);
 	if (!strcmp(n, "pbapp") && na == 2) return wl_pbapp(r, atoi(a[0]), atoi(a[1]), k1, k2);
+	if (!strcmp(n, "pbspr") && na == 2) return wl_pbspr(r, atoi(a[0]), atoi(a[1]), k1, k2);
 	if (!strcmp(n, "alnew") && na == 1) return wl_alnew(r, atoi(a[0]), k1, k2);
 	if (!strcmp(n, "aadd") && na == 1) return wl_arr(r, 'a', atoi(a[0]), 0, k1, k2);
 	if (!strcmp(n, "aput") && na == 2) return wl_arr(r, 'p', atoi(a[0]), atol(a[1]), k1, k2);
